@@ -2,7 +2,9 @@
  * (espconn) state around the server connection:
  *   link: 0 idle, 1 connect requested (espconn_connect called), 2 live (connect_cb delivered), 3 closing
  *         (espconn_disconnect called on a live connection, disconnect_cb not yet delivered)
- *   CONNCB is delivered only when link==1, DISCCB only when link is 2 or 3, RECV only when link==2;
+ *   CONNCB is delivered only when link==1, DISCCB only when link is 2 or 3, RECV when link==2 -- and when link==3: a segment that
+ *   was in flight when the device called espconn_disconnect is still delivered, the close then completes: that recv callback is
+ *   followed at once by the disconnect callback (one compound event: RX line, then DISCD line);
  *   espconn_sent answers `live` while link==2 and `dead` otherwise (CFG dead=<r>, SENTMODE <r>).
  * Events:  ADV <us> | WIFI <status> | CONNCB | DISCCB | RECV : <hex> | SENTMODE <r> | SENTRES r r ... |
  *          LOCAL <api> <a> <b>   (direct call of a public devconn function that contains an srpc call site)
@@ -170,11 +172,18 @@ static void run_case(int n, char **lines) {
         if (e && e->proto.tcp && e->proto.tcp->disconnect_callback) e->proto.tcp->disconnect_callback(e);
       }
     } else if (!strncmp(l, "RECV", 4)) {
-      if (c4_link == L_LIVE) {
+      if (c4_link == L_LIVE || c4_link == L_CLOSING) {
+        int closing = c4_link == L_CLOSING;
         char *c = strchr(l, ':'); int k = c ? hex2bytes(c + 1 + (c[1] == ' '), buf, sizeof buf) : 0;
         struct espconn *e = vd_espconn();
         vout("RX %llu %d %d", v_now, c4_conn, i);
         if (e && e->recv_callback) e->recv_callback(e, (char *)buf, (unsigned short)k);
+        if (closing) {                          /* in-flight segment of a closing connection: the close completes */
+          e = vd_espconn();
+          vout("DISCD %llu %d %d", v_now, c4_conn, i);
+          c4_link = L_IDLE; c4_set_default();
+          if (e && e->proto.tcp && e->proto.tcp->disconnect_callback) e->proto.tcp->disconnect_callback(e);
+        }
       }
     } else if (!strncmp(l, "SERVER ", 7)) { c4_srv_delay = strtoll(l + 7, NULL, 0); }
     else if (!strncmp(l, "SENTMODE ", 9)) { c4_live_res = atoi(l + 9); c4_set_default(); }
